@@ -217,6 +217,8 @@ def run_census(prop, root, instances, seed=1, jobs=16):
                        "meaning": "mutants within 3 lines of a construct on which a rule discharged an obligation"},
         "by_operator": by_op,
         "noticed_by_rule": dict(sorted(by_rule.items())),
+        "analysis_errors": [{k: r[k] for k in ("function", "operator", "line", "edit", "how")} for r in noticed
+                            if r.get("how", "").startswith("analysis-error")][:40],
         "sample_noticed": [{k: r[k] for k in ("function", "operator", "line", "edit", "how")} for r in noticed[:12]],
         "sample_unnoticed": [{k: r[k] for k in ("function", "operator", "line", "edit")} for r in unnoticed[:25]],
         "seed": seed,
